@@ -424,6 +424,11 @@ where
         .filter(|x| !x.run_ends().is_empty())
         .collect();
 
+    // All inputs are empty: the result is an empty array of the same type
+    if run_arrays.is_empty() {
+        return Ok(arrays[0].slice(0, 0));
+    }
+
     // The run ends need to be adjusted by the sum of the lengths of the previous arrays.
     let needed_run_end_adjustments = std::iter::once(R::default_value())
         .chain(
